@@ -68,6 +68,23 @@ CHECKS = {
    note="math/rand/v2 in the retry package is replaced by a shim returning the low extreme; bounds are insensitive to it because of the clamp."),
 }
 
+# scenario families added by the seeding rounds 4-5 (appended to the notes above)
+EXTRA = {
+ "C01": " Also: a destination that can mount blobs (mounted / copied after all per blob and candidate repository), a destination reference that already names another manifest, an ordinary layer with mirror URLs, two layers with one file name into a file store.",
+ "C02": " Also: ExtendedCopyGraph with FilterAnnotation/FilterArtifactType (their manifest reads are fault points), a mounting destination with fault menus; injected source-read failures also match errdef.ErrNotFound.",
+ "C03": " Also: a source that lost one node's content (every node in turn), a referrer whose subject is a blob, one wide shape with 70 referrers.",
+ "C05": " Also: the file store's restore-duplicates path, a named push over a longer existing file, a named directory layer; visibility is probed through the bare descriptor too.",
+ "C06": " Also: two references sharing one annotated descriptor, a failing push under the second name of stored content (file store).",
+ "C07": " Also: AutoGC off in the OCI histories, the file store with ForceCAS, reopening an OCI layout after concurrent pushes.",
+ "C10": " Also: six pairs of concurrent non-conflicting operations x schedules (D<=2 / D<=3) x crash points: effects of operations that returned survive.",
+ "C11": " Also: after an accepted archive that leaves links which really lead outside, a second push (named blob / archive) through every such link; hard-link targets read relative to the archive root; a working directory with otherwise empty ancestors.",
+ "C13": " Also: Read/Seek sequences against a chunked registry; bodies of known length deliver io.EOF together with the last byte.",
+ "C16": " Also: registry B on registry A's host name with another port; the base endpoint /v2/ (challenge without scope); every attached bearer token is judged by the scope set it was issued for.",
+ "C18": " Also: the store that executed a history and a fresh store on the same file must agree on Get wherever at most one entry can be meant.",
+}
+for _k, _v in EXTRA.items():
+    CHECKS[_k]["note"] += _v
+
 checks, na = [], []
 for p in props:
     i = p["id"]
